@@ -24,7 +24,7 @@ cp "$DEMO" "$WT/$PKG/zz_demo_test.go"
 (cd "$WT" && go test -vet=off -count=1 -run "$DEMOFN" ./$PKG/ >/tmp/seed_${NAME}_demo_patched.log 2>&1); echo "demo with patch: exit=$? (want 1)"
 rm "$WT/$PKG/zz_demo_test.go"
 for id in "$@"; do
-  (cd /verif && VERIF_REPO="$WT" ./check "$id" >/tmp/seed_${NAME}_check_$id.log 2>&1); rc=$?
+  (cd ${VERIF_DIR:-/verif} && VERIF_REPO="$WT" ./check "$id" >/tmp/seed_${NAME}_check_$id.log 2>&1); rc=$?
   echo "check $id on seeded tree: exit=$rc  $(grep -c '^VIOLATION' /tmp/seed_${NAME}_check_$id.log) VIOLATION lines; first: $(grep -m1 '^VIOLATION' /tmp/seed_${NAME}_check_$id.log | cut -c1-160)"
   [ $rc -eq 2 ] && tail -5 /tmp/seed_${NAME}_check_$id.log
 done
